@@ -157,9 +157,15 @@ def check_cookie(ctx, name, value, kw, where):
 
     def factory(ns):
         r = ns.PlainTextResponse("x")
-        r.set_cookie(name, value, **kw)
+        if value is None:
+            r.delete_cookie(name)
+        else:
+            r.set_cookie(name, value, **kw)
         return r
     want = []
+    if value is None:
+        kw = {"expires": 0, "max_age": 0}
+        value = ""
     if kw.get("expires") is not None:
         want.append("expires=")
     if kw.get("max_age", -1) > -1:
@@ -293,6 +299,11 @@ def run(ctx):
                 check_mutation(ctx, path, "x-" + text, "v", "name")
                 ctx.case_enum(nt)
                 ctx.case_enum(nt)
+            if ci == 0:
+                # header names that the library itself reads or writes must be validated like any other
+                for hname in ("Content-Length", "content-type", "Set-Cookie", "Location", "Content-Range", "ETag", "Vary", "Cache-Control"):
+                    check_mutation(ctx, PATHS[idx % len(PATHS)], hname, text, "value")
+                    ctx.case_enum(nt)
         if not full:
             continue
         # --- cookie name / value, redirect target: emitted through both servers
@@ -302,10 +313,12 @@ def run(ctx):
                              {"domain": "example.com", "path": "/app"}])
             check_cookie(ctx, "sid", text, kw, "value")
             check_cookie(ctx, text, "v", kw, "name")
+            check_cookie(ctx, text, "", kw, "name")      # empty value (set_cookie(name) default)
+            check_cookie(ctx, text, None, {}, "name")    # delete_cookie(name)
             check_redirect(ctx, "/next?x=" + text, False)
             check_redirect(ctx, "http://example.com/" + text, rng.random() < 0.3)
             check_redirect(ctx, rng.choice(["https://example.org", "//host", "http://u@h", ""]) + text + rng.choice(["", "/p", "?q"]), False)
-            for _ in range(5):
+            for _ in range(7):
                 ctx.case_enum(nt)
     ctx.exhaustive = True
     ctx.extra["exhaustive_bound"] = (f"all strings of length <={top} over {len(SPECIAL)} special characters through 8 mutation paths (value and name); "
